@@ -1,10 +1,44 @@
----- MODULE MCN ----
+-------------------------------- MODULE MCN --------------------------------
+(* Model-checking instance for Nms.tla (property C14): over every list of 0..MaxLen *)
+(* detections from an alphabet (nested, shifted, rotated, invalid boxes; with and    *)
+(* without scores; rank ties included) and every threshold of the grids, TLC checks  *)
+(* that the greedy definition yields the UNIQUE set satisfying the declarative       *)
+(* definition (for every way of breaking rank ties), that the list is rank-ordered,  *)
+(* and that nms(nms(x)) = nms(x).  Inputs are enumerated in Next in two stages so    *)
+(* that the work spreads over the workers.  No history variable.                     *)
 EXTENDS Nms
-Bx == [x : {0, 1}, y : {0}, w : {2, 4}, h : {2, 0}, k : {0, 1}]
-Dt == [box : Bx, score : {-1, 500, 2500}]
-VARIABLES dets
-Init == dets \in [1..3 -> Dt]
-Next == UNCHANGED dets
-Inv == \A thr \in {<<3, 10>>, <<7, 10>>} : \A sthr \in {-1, 400, 1000} :
-          GreedyIsTheResult(dets, thr, sthr) /\ Idempotent(dets, thr, sthr)
-====
+CONSTANTS MaxLen,   \* longest list
+          Grid      \* "quick" | "full" (threshold grids) | "small" (small alphabet, for MaxLen = 4)
+VARIABLES stage, dets
+vars == <<stage, dets>>
+B(x, y, w, h, k) == [x |-> x, y |-> y, w |-> w, h |-> h, k |-> k]
+BxFull == { B(0, 0, 4, 4, 0), B(0, 0, 2, 2, 0), B(1, 0, 4, 3, 0), B(2, 1, 4, 2, 0), B(0, 0, 4, 2, 1),
+            B(1, 1, 2, 3, 1), B(3, 0, 2, 4, 2), B(9, 9, 2, 2, 0), B(0, 0, 0, 2, 0), B(0, 0, 2, 0, 0) }
+BxSmall == { B(0, 0, 4, 4, 0), B(0, 0, 2, 2, 0), B(1, 0, 4, 3, 0), B(0, 0, 4, 2, 1), B(1, 1, 2, 3, 1), B(0, 0, 0, 2, 0) }
+Bx == IF Grid = "small" THEN BxSmall ELSE BxFull
+Scores == IF Grid = "full" THEN {-1, 120, 260} ELSE {-1, 120}
+Dt == [box : Bx, score : Scores]
+Thrs == IF Grid = "full" THEN {<<3, 10>>, <<1, 2>>, <<7, 10>>} ELSE {<<3, 10>>, <<7, 10>>}
+SThrs == IF Grid = "full" THEN {-1, 100, 200, 300} ELSE {-1, 100, 200}
+Init == stage = 0 /\ dets = <<>>
+Next ==
+  \/ /\ stage = 0 /\ stage' = 1
+     /\ \/ dets' = <<>>
+        \/ \E d \in Dt : dets' = <<d>>
+  \/ /\ stage = 1 /\ stage' = 2
+     /\ IF dets = <<>> THEN UNCHANGED dets
+        ELSE \E n \in 0..(MaxLen - 1) : \E rest \in [1..n -> Dt] : dets' = dets \o rest
+MCSpec == Init /\ [][Next]_vars
+TieBreaks(sthr) == IF TieFree(dets, sthr) THEN {Ident(dets)} ELSE Perms(DOMAIN dets)
+Inv == stage = 2 =>
+  \A thr \in Thrs : \A sthr \in SThrs :
+     /\ \A p \in TieBreaks(sthr) : GreedyIsTheResultP(dets, thr, sthr, p)
+     /\ Ordered(dets, thr, sthr)
+     /\ Idempotent(dets, thr, sthr)
+     /\ Nms(dets, thr, sthr) \in NmsAll(dets, thr, sthr)
+(* reachability witnesses: TLC must violate these *)
+W_NeverInteresting == stage = 2 => \A thr \in Thrs : \A sthr \in SThrs : ~Interesting(dets, thr, sthr)
+W_FilterNeverDrops == stage = 2 => \A sthr \in SThrs : \A i \in DOMAIN dets : Valid(dets[i]) => Passes(dets[i], sthr)
+W_TieNeverMatters == stage = 2 => \A thr \in Thrs : \A sthr \in SThrs : Cardinality(NmsAll(dets, thr, sthr)) = 1
+W_NoInvalidMixed == stage = 2 => ~(\E i, j \in DOMAIN dets : ~Valid(dets[i]) /\ Valid(dets[j]))
+=============================================================================
